@@ -141,6 +141,36 @@ def check(index, ctx):
                 continue
             ops = sops(r)
             srt = [e for e in ops if e["sop"] in ("sort", "msort", "argsort") and e["in_origin"] == ["matrix"]]
+            if len(srt) == 0:
+                # no sort: successive partial selections along the rows — topk(k, largest=False) keeps ranks [lo, lo + k) of what it is given, topk(k, largest=True) keeps
+                # [hi - k, hi); the mean does not depend on the order of the kept entries
+                tks = [e for e in ops if e["sop"] == "topk" and e.get("axis") in ("R", "K") and e.get("axis_pos") == 0]
+                chain_, prev = [], None
+                for e in tks:
+                    if (prev is None and e["in_origin"] == ["matrix"] and e.get("axis") == "R") or (prev is not None and prev["id"] in e["in_origin"]):
+                        chain_.append(e)
+                        prev = e
+                if chain_ and len(chain_) == len(tks):
+                    lo_, hi_, bad_ = Poly.const(0), m, None
+                    for e in chain_:
+                        k_ = e.get("k_poly")
+                        if k_ is None or e.get("largest") not in (True, False):
+                            bad_ = f"{e['loc']}: topk with a non-symbolic k / direction"
+                            break
+                        if e["largest"]:
+                            lo_ = hi_ - k_
+                        else:
+                            hi_ = lo_ + k_
+                    red = [e for e in ops if e["sop"] == "reduce" and chain_[-1]["id"] in e["in_origin"]]
+                    okr = len(red) == 1 and red[0]["fn"] == "mean" and red[0]["over_pos"] == [chain_[-1]["axis_pos"]]
+                    ctx.require(bad_ is None and lo_ == b and hi_ == m - b, "T", "TrimmedMean.forward: trimming window", f"partial selections keep the ranks [{lo_}, {hi_}) == [trim_number, m - trim_number)",
+                                bad_ or f"the partial selections keep the ranks [{lo_}, {hi_}) of every column, not [trim_number, m - trim_number)", chain_[0]["loc"],
+                                derivation={"start": repr(lo_), "stop": repr(hi_), "ops": [e["text"] for e in chain_]})
+                    ctx.require(okr and tuple(r.value.axes) == ("C",) and red[0]["id"] in r.value.origin, "T", "TrimmedMean.forward: mean over the trimmed window", "single mean over the row axis of the kept entries",
+                                "the kept entries are not reduced by a single mean over the row axis", red[0]["loc"] if red else chain_[-1]["loc"])
+                    continue
+                ctx.undecided("T", "TrimmedMean.forward: sort of the matrix", "neither a sort of the raw matrix nor a chain of partial selections (topk) along the rows was recognised", cls.loc())
+                continue
             if len(srt) != 1:
                 ctx.violated("T", "TrimmedMean.forward: sort of the matrix", f"expected exactly one sort of the raw matrix, found {len(srt)}", cls.loc())
                 continue
